@@ -38,12 +38,11 @@ def build_repo():
 
 
 def build_harness(fallback=False):
+    """harness/: probes linking /repo/libfs and /repo/libxcp by path; harness-fb/: libfs without the Linux backend."""
+    d = VERIF + ('/harness-fb' if fallback else '/harness')
     env = dict(ENV, CARGO_TARGET_DIR=HARNESS_FB_TARGET if fallback else HARNESS_TARGET)
-    cmd = ['cargo', 'build', '--offline']
-    if fallback:
-        cmd += ['--no-default-features']
-    shutil.copyfile(REPO + '/Cargo.lock', VERIF + '/harness/Cargo.lock')
-    sh(cmd, cwd=VERIF + '/harness', env=env, check=True)
+    shutil.copyfile(REPO + '/Cargo.lock', d + '/Cargo.lock')
+    sh(['cargo', 'build', '--offline'], cwd=d, env=env, check=True)
     return (HARNESS_FB_TARGET if fallback else HARNESS_TARGET) + '/debug'
 
 
